@@ -365,6 +365,34 @@ pub fn control_string(r: &mut Rng) -> String {
     format!("{}{}{}", intro, pl, term)
 }
 
+/// A control string whose payload is NOT restricted: C1 controls, CAN, SUB, ESC, BEL anywhere, followed by
+/// visible text - what is swallowed and what is printed depends on every single transition (C12, C03).
+pub fn messy_string(r: &mut Rng) -> String {
+    if r.chance(1, 3) {
+        // one string kind opened inside another: which terminator ends what?
+        let outer = *r.pick(&["\x1b]", "\u{9d}", "\x1bP", "\u{90}1;2q", "\x1b_"]);
+        let inner = *r.pick(&['\u{98}', '\u{9e}', '\u{9f}', '\u{9d}', '\u{90}']);
+        let t1: &str = *r.pick(&["\x07", "\u{9c}", "\x1b\\"]);
+        let t2: &str = *r.pick(&["\x1b\\", "\u{9c}", "\x07", ""]);
+        return format!("{}0;ti{}tle{}visible{}ok", outer, inner, t1, t2);
+    }
+    let intro = *r.pick(&["\x1b]", "\u{9d}", "\x1bP", "\u{90}", "\x1bX", "\u{98}", "\x1b^", "\u{9e}", "\x1b_", "\u{9f}"]);
+    let mut s = String::from(intro);
+    for _ in 0..r.range(1, 8) {
+        let c = match r.n(6) {
+            0 => *r.pick(&['\u{98}', '\u{9e}', '\u{9f}', '\u{9d}', '\u{90}', '\u{9b}', '\u{9c}', '\u{84}', '\u{85}', '\u{8d}']),
+            1 => *r.pick(&['\x07', '\x18', '\x1a', '\x1b', '\n', '\r']),
+            _ => *r.pick(&['t', 'i', ';', '0', '1', ':', '?', 'm', 'H', ' ', 'é']),
+        };
+        s.push(c);
+    }
+    let term: &str = *r.pick(&["\x07", "\x1b\\", "\u{9c}", "\x07vis", "\x07v\x1b\\ok", ""]);
+    s.push_str(term);
+    let tail: &str = *r.pick(&["xy", "", "\r\nz", "\x1b[1mq"]);
+    s.push_str(tail);
+    s
+}
+
 /// CSI / ESC sequences and controls that avt does not implement.
 pub fn unimplemented(r: &mut Rng) -> String {
     match r.n(10) {
